@@ -217,10 +217,16 @@ func (b *Broker) Send(ctx context.Context, t EventType, payload interface{}) (St
 // application, which then would invoke this method.  Another typically use-case
 // is to have all Nodes reevaluated any external configuration they might have.
 func (b *Broker) Reopen(ctx context.Context) error {
+	// Don't hold the lock while nodes reopen: a node may call back into the
+	// Broker (e.g. Send), which would deadlock behind a waiting writer.
 	b.lock.RLock()
-	defer b.lock.RUnlock()
-
+	graphs := make([]*graph, 0, len(b.graphs))
 	for _, g := range b.graphs {
+		graphs = append(graphs, g)
+	}
+	b.lock.RUnlock()
+
+	for _, g := range graphs {
 		if err := g.reopen(ctx); err != nil {
 			return err
 		}
@@ -276,8 +282,15 @@ func (b *Broker) RegisterNode(id NodeID, node Node, opt ...Option) error {
 // referencing those nodes
 func (b *Broker) RemoveNode(ctx context.Context, id NodeID) error {
 	b.lock.Lock()
-	defer b.lock.Unlock()
-	return b.removeNode(ctx, id, false)
+	node, err := b.detachNode(id, false)
+	b.lock.Unlock()
+	if err != nil {
+		return err
+	}
+
+	// Close the node without holding the lock, since closing may call back
+	// into the Broker (e.g. the gated filter flushes via Send when closed).
+	return closeNode(ctx, id, node)
 }
 
 // removeNode will remove a node from the broker, if it is not currently  in use.
@@ -286,33 +299,56 @@ func (b *Broker) RemoveNode(ctx context.Context, id NodeID) error {
 // The force option can be used to decrement the count for the node if it's still in use by pipelines
 // This function assumes that the caller holds a lock
 func (b *Broker) removeNode(ctx context.Context, id NodeID, force bool) error {
+	node, err := b.detachNode(id, force)
+	if err != nil {
+		return err
+	}
+
+	return closeNode(ctx, id, node)
+}
+
+// detachNode does the bookkeeping of removeNode but leaves closing the node to
+// the caller: if the node was unregistered it is returned so that it can be
+// closed once the lock has been released (see closeNode).
+// This function assumes that the caller holds a lock
+func (b *Broker) detachNode(id NodeID, force bool) (Node, error) {
 	if id == "" {
-		return fmt.Errorf("unable to remove node, node ID cannot be empty: %w", ErrInvalidParameter)
+		return nil, fmt.Errorf("unable to remove node, node ID cannot be empty: %w", ErrInvalidParameter)
 	}
 
 	nodeUsage, ok := b.nodes[id]
 	if !ok {
-		return fmt.Errorf("%w: %q", ErrNodeNotFound, id)
+		return nil, fmt.Errorf("%w: %q", ErrNodeNotFound, id)
 	}
 
 	// if force is passed, then decrement the count for this node instead of failing
 	if nodeUsage.referenceCount > 0 && !force {
-		return fmt.Errorf("cannot remove node, as it is still in use by 1 or more pipelines: %q", id)
+		return nil, fmt.Errorf("cannot remove node, as it is still in use by 1 or more pipelines: %q", id)
 	}
 
-	var err error
 	switch nodeUsage.referenceCount {
 	case 0, 1:
-		nc := NewNodeController(nodeUsage.node)
-		if err = nc.Close(ctx); err != nil {
-			err = fmt.Errorf("unable to close node ID %q: %w", id, err)
-		}
 		delete(b.nodes, id)
+		return nodeUsage.node, nil
 	default:
 		nodeUsage.referenceCount--
 	}
 
-	return err
+	return nil, nil
+}
+
+// closeNode closes a node that was unregistered by detachNode (nil is a no-op).
+func closeNode(ctx context.Context, id NodeID, node Node) error {
+	if node == nil {
+		return nil
+	}
+
+	nc := NewNodeController(node)
+	if err := nc.Close(ctx); err != nil {
+		return fmt.Errorf("unable to close node ID %q: %w", id, err)
+	}
+
+	return nil
 }
 
 // PipelineID is a string that uniquely identifies a Pipeline within a given EventType.
@@ -466,15 +502,16 @@ func (b *Broker) RemovePipelineAndNodes(ctx context.Context, t EventType, id Pip
 	}
 
 	b.lock.Lock()
-	defer b.lock.Unlock()
 
 	g, ok := b.graphs[t]
 	if !ok {
+		b.lock.Unlock()
 		return false, fmt.Errorf("no graph for EventType %s", t)
 	}
 
 	nodes, err := g.roots.Nodes(id)
 	if err != nil {
+		b.lock.Unlock()
 		return false, fmt.Errorf("unable to retrieve all nodes referenced by pipeline ID %q: %w", id, err)
 	}
 
@@ -482,9 +519,22 @@ func (b *Broker) RemovePipelineAndNodes(ctx context.Context, t EventType, id Pip
 
 	var nodeErr error
 
+	detached := make(map[NodeID]Node, len(nodes))
 	for _, nodeID := range nodes {
-		err = b.removeNode(ctx, nodeID, true)
+		node, err := b.detachNode(nodeID, true)
 		if err != nil {
+			nodeErr = multierror.Append(nodeErr, err)
+			continue
+		}
+		detached[nodeID] = node
+	}
+
+	b.lock.Unlock()
+
+	// Close the unregistered nodes without holding the lock, since closing may
+	// call back into the Broker (e.g. the gated filter flushes via Send).
+	for _, nodeID := range nodes {
+		if err := closeNode(ctx, nodeID, detached[nodeID]); err != nil {
 			nodeErr = multierror.Append(nodeErr, err)
 		}
 	}
